@@ -118,6 +118,9 @@ pub enum Trig {
     Scripted(u16, Vec<bool>),
     /// ChangeOf over harness value k (at most one per configuration)
     ChangeOf(u8),
+    /// `LessThanN::iterations(m)`: fires while iterations < m - and, as every LessThanN, writes iterations / m into the
+    /// progress state of the iteration counter (the one the loop condition writes and `with_common` logs)
+    LessThan(u32),
     And(Box<Trig>, Box<Trig>),
     Or(Box<Trig>, Box<Trig>),
     Not(Box<Trig>),
@@ -133,6 +136,23 @@ pub enum Extr {
     Missing,
     /// size of the current (top) population; the stack holds two populations of different sizes
     PopulationSize,
+    /// a custom extractor with its own entry name `wide-k` and the constant value k (for logs with hundreds of
+    /// distinct entry names)
+    Named(u16),
+}
+
+/// Entry names of the `Named` extractors (entry names are `&'static str`).
+fn wide_name(k: u16) -> &'static str {
+    static NAMES: std::sync::OnceLock<Vec<&'static str>> = std::sync::OnceLock::new();
+    NAMES.get_or_init(|| (0..1024u16).map(|k| &*Box::leak(format!("wide-{k}").into_boxed_str())).collect())[k as usize % 1024]
+}
+
+#[derive(Clone)]
+struct Named(u16);
+impl mahf::logging::extractor::EntryExtractor<RealP> for Named {
+    fn extract_entry(&self, _problem: &RealP, _state: &State<RealP>) -> mahf::logging::log::Entry {
+        mahf::logging::log::Entry { name: wide_name(self.0), value: Box::new(Some(self.0 as i64)) }
+    }
 }
 
 #[derive(Clone, Debug, Serialize, Deserialize)]
@@ -218,6 +238,15 @@ fn vf(x: f64) -> V {
     V::F(if x.is_nan() { f64::NAN.to_bits() } else { x.to_bits() })
 }
 
+fn has_less_than(t: &Trig) -> bool {
+    match t {
+        Trig::LessThan(_) => true,
+        Trig::And(a, b) | Trig::Or(a, b) => has_less_than(a) || has_less_than(b),
+        Trig::Not(a) => has_less_than(a),
+        _ => false,
+    }
+}
+
 fn build_trigger(t: &Trig) -> Box<dyn Condition<RealP>> {
     match t {
         Trig::Always => EveryN::iterations(1),
@@ -229,6 +258,7 @@ fn build_trigger(t: &Trig) -> Box<dyn Condition<RealP>> {
             1 => ChangeOf::new::<RealP>(PartialEqChecker::new::<i64>(), ValueOf::<HV1>::new()),
             _ => ChangeOf::new::<RealP>(PartialEqChecker::new::<u32>(), ValueOf::<Iterations>::new()),
         },
+        Trig::LessThan(m) => LessThanN::iterations((*m).max(1)),
         Trig::And(a, b) => build_trigger(a) & build_trigger(b),
         Trig::Or(a, b) => build_trigger(a) | build_trigger(b),
         Trig::Not(a) => !build_trigger(a),
@@ -240,6 +270,8 @@ struct LogModel<'a> {
     hv: [Option<i64>; 5],
     iterations: u32,
     progress: f64,
+    /// the progress state a scoped logger's `LessThan` trigger creates (init) inside the scope, shadowing the loop's
+    inner_progress: Option<f64>,
     script_pos: BTreeMap<u16, usize>,
     prev: Option<Option<i64>>, // ChangeOf previous: None = not initialised (error), Some(None) = fresh
     steps: Vec<Vec<(String, V)>>,
@@ -276,6 +308,15 @@ impl<'a> LogModel<'a> {
                 }
                 changed
             }
+            Trig::LessThan(m) => {
+                let m = (*m).max(1);
+                let p = self.iterations as f64 / m as f64;
+                match &mut self.inner_progress {
+                    Some(ip) => *ip = p,
+                    None => self.progress = p,
+                }
+                self.iterations < m
+            }
             Trig::And(a, b) => {
                 let (x, y) = (self.eval(a)?, self.eval(b)?);
                 x && y
@@ -296,10 +337,11 @@ impl<'a> LogModel<'a> {
             }
             Extr::Iterations => vec![(IT_NAME.into(), V::Int(self.iterations as i128))],
             Extr::Evaluations => vec![(EV_NAME.into(), self.case.evaluations.map_or(V::Null, |v| V::Int(v as i128)))],
-            Extr::Common => vec![(EV_NAME.into(), self.case.evaluations.map_or(V::Null, |v| V::Int(v as i128))), (PR_NAME.into(), vf(self.progress))],
+            Extr::Common => vec![(EV_NAME.into(), self.case.evaluations.map_or(V::Null, |v| V::Int(v as i128))), (PR_NAME.into(), vf(self.inner_progress.unwrap_or(self.progress)))],
             Extr::BestObjective => vec![("BestObjectiveValue".into(), self.case.best.map_or(V::Null, |b| vf(best_value(b))))],
             Extr::Missing => vec![("never-inserted".into(), V::Null)],
             Extr::PopulationSize => vec![("PopulationSize".into(), V::Int(pop_sizes(self.case).1 as i128))],
+            Extr::Named(k) => vec![(wide_name(*k).to_string(), V::Int((*k % 1024) as i128))],
         }
     }
     /// One logger execution. Err(()) if a trigger fails (the run then fails).
@@ -308,10 +350,10 @@ impl<'a> LogModel<'a> {
         for (t, e) in &self.case.rules.clone() {
             // `with_common` registers two rules with (a clone of) the same trigger: it is evaluated twice
             let times = if matches!(e, Extr::Common) { 2 } else { 1 };
-            let vals = self.value(e);
             for k in 0..times {
                 if self.eval(t)? {
-                    let (n, v) = vals[k].clone();
+                    // the entry is extracted right after its own rule's trigger was evaluated, before the next rule's
+                    let (n, v) = self.value(e)[k].clone();
                     if !step.iter().any(|(m, _)| *m == n) {
                         step.push((n, v));
                     }
@@ -371,7 +413,9 @@ impl<'a> LogModel<'a> {
                     self.bump();
                     // scope entry: the logger (and its triggers) are initialised anew
                     self.prev = Some(None);
+                    self.inner_progress = if self.case.rules.iter().any(|(t, _)| has_less_than(t)) { Some(0.0) } else { None };
                     self.logger()?;
+                    self.inner_progress = None;
                     self.prev = None;
                 }
             }
@@ -427,7 +471,7 @@ impl Check for LogCheck {
         "C15/log".into()
     }
     fn classes(&self) -> &'static [&'static str] {
-        &[">= 3 steps", "duplicate name among fired rules", "missing source (null entry)", "execution where nothing fires", "rule produces the iteration entry itself", "logger in a scope", "trigger error", "rules registered through with_many", "progress state above 1 while logged", "log carried into a second run", "rule registered from inside a scope"]
+        &[">= 3 steps", "duplicate name among fired rules", "missing source (null entry)", "execution where nothing fires", "rule produces the iteration entry itself", "logger in a scope", "trigger error", "rules registered through with_many", "progress state above 1 while logged", "log carried into a second run", "rule registered from inside a scope", "more than 256 distinct entry names in one log", "a LessThanN trigger that writes the progress state another rule logs"]
     }
     fn oracle(&self, c: &LogCase) -> Outcome {
         let mut cl = 0;
@@ -470,6 +514,7 @@ fn extractor_of(e: &Extr) -> Box<dyn mahf::logging::extractor::EntryExtractor<Re
         Extr::BestObjective => BestObjectiveValueLens::<RealP>::entry(),
         Extr::Missing | Extr::Common => Box::new(MissingLens),
         Extr::PopulationSize => mahf::lens::common::PopulationSizeLens::<RealP>::entry(),
+        Extr::Named(k) => Box::new(Named(*k)),
     }
 }
 
@@ -488,8 +533,14 @@ fn log_oracle(c: &LogCase, cl: &mut u64) -> Result<(), Failure> {
         grouped.rules.push(r);
         *cl |= 1024;
     }
+    if grouped.rules.iter().filter(|(_, e)| matches!(e, Extr::Named(_))).count() > 250 {
+        *cl |= 2048;
+    }
+    if grouped.rules.iter().any(|(t, _)| has_less_than(t)) && grouped.rules.iter().any(|(_, e)| matches!(e, Extr::Common)) {
+        *cl |= 4096;
+    }
     let c = &grouped;
-    let mut m = LogModel { case: c, hv: [None; 5], iterations: 0, progress: 0.0, script_pos: BTreeMap::new(), prev: None, steps: Vec::new() };
+    let mut m = LogModel { case: c, hv: [None; 5], iterations: 0, progress: 0.0, inner_progress: None, script_pos: BTreeMap::new(), prev: None, steps: Vec::new() };
     for k in 0..5 {
         if c.present[k] {
             m.hv[k] = Some(10 * k as i64);
@@ -602,6 +653,7 @@ fn log_oracle(c: &LogCase, cl: &mut u64) -> Result<(), Failure> {
                         Extr::BestObjective => cfg.with(trig, BestObjectiveValueLens::<RealP>::entry()),
                         Extr::Missing => cfg.with(trig, Box::new(MissingLens)),
                         Extr::PopulationSize => cfg.with(trig, mahf::lens::common::PopulationSizeLens::<RealP>::entry()),
+                        Extr::Named(k) => cfg.with(trig, Box::new(Named(*k))),
                     };
                 }
                 Ok(())
@@ -760,6 +812,7 @@ fn trig_strategy() -> impl Strategy<Value = Trig> {
         3 => Just(Trig::Always),
         1 => Just(Trig::Never),
         3 => (1u32..5).prop_map(Trig::EveryN),
+        2 => (1u32..7).prop_map(Trig::LessThan),
         3 => proptest::collection::vec(any::<bool>(), 0..8).prop_map(|s| Trig::Scripted(0, s)),
     ];
     leaf.prop_recursive(2, 6, 2, |inner| {
@@ -788,8 +841,8 @@ fn renumber_scripts(t: &mut Trig, next: &mut u16) {
 
 fn log_strategy() -> impl Strategy<Value = LogCase> {
     let extr = prop_oneof![6 => (0u8..5).prop_map(Extr::H), 2 => Just(Extr::Iterations), 1 => Just(Extr::Evaluations), 1 => Just(Extr::Common), 1 => Just(Extr::BestObjective), 1 => Just(Extr::Missing), 1 => Just(Extr::PopulationSize)];
-    (proptest::collection::vec((trig_strategy(), extr), 0..7), proptest::option::of((0u8..3, 0u8..7)), 0u8..5, 0u32..13, [any::<bool>(), any::<bool>(), any::<bool>(), any::<bool>(), any::<bool>()], proptest::option::of(0u32..100), proptest::option::of(prop_oneof![5 => -5i32..50, 1 => Just(i32::MAX)]), proptest::option::of((any::<u8>(), any::<u8>())), (any::<bool>(), proptest::option::weighted(0.3, (0u8..6, 0u8..5))))
-        .prop_map(|(mut rules, change, structure, iters, present, evaluations, best, many, (carry, scoped_rule))| {
+    (proptest::collection::vec((trig_strategy(), extr), 0..7), proptest::option::of((0u8..3, 0u8..7)), 0u8..5, 0u32..13, [any::<bool>(), any::<bool>(), any::<bool>(), any::<bool>(), any::<bool>()], proptest::option::of(0u32..100), proptest::option::of(prop_oneof![5 => -5i32..50, 1 => Just(i32::MAX)]), proptest::option::of((any::<u8>(), any::<u8>())), (any::<bool>(), proptest::option::weighted(0.3, (0u8..6, 0u8..5)), proptest::option::weighted(0.04, 250u16..330)))
+        .prop_map(|(mut rules, change, structure, iters, present, evaluations, best, many, (carry, scoped_rule, wide))| {
             // at most one ChangeOf trigger (they share their `Previous` state by value type)
             if let (Some((k, pos)), false) = (change, rules.is_empty()) {
                 let i = pos as usize % rules.len();
@@ -798,6 +851,10 @@ fn log_strategy() -> impl Strategy<Value = LogCase> {
             let mut next = 0;
             for (t, _) in rules.iter_mut() {
                 renumber_scripts(t, &mut next);
+            }
+            // a block of hundreds of rules with distinct entry names (the export's name table grows beyond 256 entries)
+            if let Some(w) = wide {
+                rules.extend((0..w).map(|k| (Trig::Always, Extr::Named(k))));
             }
             // the progress value after a zero-iteration loop is 0/0
             let iters = if structure % 5 == 1 { iters.max(1) } else { iters };
